@@ -29,6 +29,8 @@ type Gen struct {
 	trustedUsed   map[string]bool
 	UnfoldDepth   int
 	funcByObj     map[*types.Func]*ssa.Function
+	initConstCache map[*ssa.Global][]*ssa.Store
+	specRec        map[string]bool
 }
 
 var ContractPackages = []string{".", "./internal", "./typeutil", "./packages/cache", "./internal/target/util"}
@@ -52,7 +54,7 @@ func Load(repo string, extDirs []string) (*Gen, error) {
 	g := &Gen{Prog: prog, Pkgs: pkgs, SSAPkgs: map[string]*ssa.Package{}, CS: NewContractSet(), RepoDir: repo,
 		internal: map[string]bool{}, pkgByName: map[string]*types.Package{}, pkgByPath: map[string]*types.Package{},
 		globalIDs: map[string]int{}, abstractCalls: map[string]int{}, trustedUsed: map[string]bool{}, UnfoldDepth: 1,
-		funcByObj: map[*types.Func]*ssa.Function{}}
+		funcByObj: map[*types.Func]*ssa.Function{}, initConstCache: map[*ssa.Global][]*ssa.Store{}}
 	for i, p := range pkgs {
 		g.internal[p.PkgPath] = true
 		g.SSAPkgs[p.PkgPath] = spkgs[i]
@@ -230,7 +232,8 @@ type FuncResult struct {
 func (g *Gen) Generate(fn *ssa.Function, con *Contract) (res *FuncResult) {
 	res = &FuncResult{Func: g.fnName(fn), Contract: con}
 	fc := &fnCtx{g: g, fn: fn, con: con, sc: NewScript(), heapSort: map[string]string{}, vals: map[ssa.Value]Val{},
-		ordinals: map[string]int{}, globals: map[string]string{}, implSyms: map[string]types.Type{}, pureDone: map[string]bool{}}
+		ordinals: map[string]int{}, globals: map[string]string{}, implSyms: map[string]types.Type{}, pureDone: map[string]bool{},
+		globalVals: map[*ssa.Global]Val{}, globalSyms: map[string]*ssa.Global{}}
 	fc.sc.Raw(prelude, preludeSyms...)
 	fc.so = newSorter(fc.sc)
 	if con != nil {
@@ -317,4 +320,45 @@ func (fc *fnCtx) heapByShortName(short string) string {
 // globalInit returns the initial value of an init-constant global (not implemented for all shapes).
 func (fc *fnCtx) globalInit(g *ssa.Global, st *State) (Val, bool) {
 	return fc.g.initValue(fc, g, st)
+}
+
+// specRecursive reports whether a spec function can reach itself through the
+// definitions (such functions are unfolded only to a fixed depth).
+func (g *Gen) specRecursive(name string) bool {
+	if g.specRec == nil {
+		g.specRec = map[string]bool{}
+		calls := map[string][]string{}
+		for n, sp := range g.CS.Specs {
+			if sp.Def == "" {
+				continue
+			}
+			m := map[string]bool{}
+			symbolsOf(strings.NewReplacer(",", " ", "!", " ", ".", " ", "*", " ", "=", " ", "<", " ", ">", " ", "&", " ", "|", " ", "+", " ", "-", " ").Replace(sp.Def), m)
+			for k := range m {
+				if g.CS.Specs[k] != nil {
+					calls[n] = append(calls[n], k)
+				}
+			}
+		}
+		for n := range g.CS.Specs {
+			seen := map[string]bool{}
+			var walk func(x string) bool
+			walk = func(x string) bool {
+				for _, c := range calls[x] {
+					if c == n {
+						return true
+					}
+					if !seen[c] {
+						seen[c] = true
+						if walk(c) {
+							return true
+						}
+					}
+				}
+				return false
+			}
+			g.specRec[n] = walk(n)
+		}
+	}
+	return g.specRec[name]
 }
